@@ -67,10 +67,18 @@ func genC14(t *rapid.T) interface{} {
 			return v.source()
 		case "arith":
 			in = genExpr(t, rapid.IntRange(0, 3).Draw(t, "d"))
+			if rapid.IntRange(0, 3).Draw(t, "longchain") == 0 {
+				// now and then an input longer than anything the process has parsed so far (state that
+				// only changes when a size record is broken changes while others are parsing)
+				in = "1" + strings.Repeat("+1", rapid.IntRange(10, 90).Draw(t, "chainlen"))
+			}
 		case "json":
 			in = genJSON(t, rapid.IntRange(0, 3).Draw(t, "d"))
 		case "lr":
 			in = rapid.SampledFrom([]string{"a", "ab", "abbbb", "abbbbbbbbb", "b", "abc", "", "abbx"}).Draw(t, "lr")
+			if rapid.IntRange(0, 3).Draw(t, "longlr") == 0 {
+				in = "a" + strings.Repeat("b", rapid.IntRange(10, 250).Draw(t, "lrlen"))
+			}
 		case "idents":
 			n := rapid.IntRange(1, 5).Draw(t, "n")
 			for i := 0; i < n; i++ {
